@@ -87,3 +87,13 @@ package conn
 //@   modifies *
 //@   atstore PacketMsg.Data requires [sampleCarriesTheConfiguredPayloadSize] len(new) == c.config.MaxPacketMsgPayloadSize
 //@   atstore PacketMsg.EOF requires [sampleIsALastPacket] new
+
+// A message in flight on a channel stays in flight until its last packet went out, whatever its size --
+// also an EMPTY message (one EOF packet with no data): "no message in flight" is ch.sending == nil, never a
+// length, so that the next message in the queue cannot overwrite it.
+//@ func (ch *Channel) isSendPending() (r bool)
+//@   for C20
+//@   requires ch != nil
+//@   modifies ch.sending
+//@   ensures [messageInFlightIsKept] old(ch.sending) != nil ==> r && ch.sending == old(ch.sending)
+//@   ensures [pendingMeansAMessageInFlight] r <==> ch.sending != nil
